@@ -116,8 +116,13 @@ def round31Op : P String := do
   let t ← float; let p1 ← float; let p3 ← float; let eps ← float
   pure (outO (round3NotLowerThanRound1 t p1 p3 eps))
 
+/-- val.defaults → the default tolerances of the model -/
+def defaultsOp : P String := do
+  let d : List (String × Float) := defaults
+  pure (" ".intercalate (toString d.length :: d.map fun kv => encodeStr kv.1 ++ " " ++ outF kv.2))
+
 def ops : List (String × P String) :=
-  [("val.allge0", allGe0Op), ("val.nevernan", neverNanOp), ("val.zerokcals", zeroKcalsOp), ("val.samesum", sameSumOp),
+  [("val.defaults", defaultsOp), ("val.allge0", allGe0Op), ("val.nevernan", neverNanOp), ("val.zerokcals", zeroKcalsOp), ("val.samesum", sameSumOp),
    ("val.constraints", constraintsOp), ("val.population", populationOp), ("val.round2gt", round2GtOp),
    ("val.meatdairy", meatDairyOp), ("val.minsum", minSumOp), ("val.priorities", prioritiesOp), ("val.fewer", fewerOp),
    ("val.below", belowOp), ("val.feed32", feed32Op), ("val.starving", starvingOp), ("val.round31", round31Op)]
